@@ -7,6 +7,7 @@ mod aut;
 mod crcref;
 mod frozen_common_inputs;
 mod refcodec;
+mod sinks;
 mod gen;
 mod oracle;
 mod props;
